@@ -2,7 +2,19 @@
 
 package boxes
 
-import pr "github.com/benoitkugler/webrender/css/properties"
+import (
+	"fmt"
+	"io"
+	"os"
+	"runtime/debug"
+
+	"github.com/benoitkugler/webrender/css/counters"
+	pr "github.com/benoitkugler/webrender/css/properties"
+	"github.com/benoitkugler/webrender/html/tree"
+	"github.com/benoitkugler/webrender/images"
+	"github.com/benoitkugler/webrender/logger"
+	"github.com/benoitkugler/webrender/utils"
+)
 
 var _ = pr.AutoF
 
@@ -161,3 +173,73 @@ var _ = pr.AutoF
 //@   call maxHorizontalWidth#4 assert[bottom-line] arg0 == 0 && arg1 == gridHeight && arg2 == gridWidth
 //@   call maxVerticalWidth#3 assert[left-line-first-row] arg0 == 0 && arg1 == 0 && arg2 == 1 && gridHeight >= 1
 //@   call maxVerticalWidth#4 assert[right-line-first-row] arg0 == gridWidth && arg1 == 0 && arg2 == 1 && gridHeight >= 1
+
+// ---------------------------------------------------------------------------
+// bounded stand-in (C01): box building never crashes. The anonymous-box passes (inline/block fix-up, table
+// fix-up rules, wrapTable, collapsed borders, counters) are mutually recursive rewriting passes outside the
+// contracts. vBuildSmallTrees builds the formatting structure of EVERY document made of three custom
+// elements, nested x > y > z or x > (y, z), each with one of 15 display values (and text in the innermost),
+// with separated and with collapsed borders, plus counter-set / counter-reset variants: 2 x 2 x 15^3 + ...
+// documents. A document may produce any box tree; none may panic, and the root must be a block.
+func vBuildSmallTrees() (int, []string) {
+	debug.SetMaxStack(64 << 20)
+	logger.WarningLogger.SetOutput(io.Discard)
+	defer logger.WarningLogger.SetOutput(os.Stdout)
+	logger.ProgressLogger.SetOutput(io.Discard)
+	defer logger.ProgressLogger.SetOutput(os.Stdout)
+	displays := []string{"block", "inline", "inline-block", "list-item", "table", "inline-table", "table-row-group", "table-header-group",
+		"table-row", "table-cell", "table-column", "table-column-group", "table-caption", "flex", "none"}
+	n := 0
+	var fails []string
+	build := func(name, src string) {
+		n++
+		defer func() {
+			if r := recover(); r != nil && len(fails) < 8 {
+				fails = append(fails, fmt.Sprintf("%s: panic: %v", name, r))
+			}
+		}()
+		html, err := tree.NewHTML(utils.InputString(src), "http://x/", utils.DefaultUrlFetcher, "")
+		if err != nil {
+			if len(fails) < 8 {
+				fails = append(fails, name+": "+err.Error())
+			}
+			return
+		}
+		html.UAStyleSheet = tree.TestUAStylesheet
+		cs := make(counters.CounterStyle)
+		style := tree.GetAllComputedStyles(html, nil, false, nil, cs, nil, nil, false, nil)
+		imgFetcher := func(url string, forcedMimeType string, orientation pr.SBoolFloat) images.Image {
+			return images.GetImageFromUri(images.NewCache(), html.UrlFetcher, false, url, forcedMimeType, orientation)
+		}
+		tr := tree.NewTargetCollector()
+		box := BuildFormattingStructure(html.Root, style, URLResolver{html.UrlFetcher, imgFetcher}, html.BaseUrl, &tr, cs, new([]Box))
+		if box == nil || !BlockT.IsInstance(box) {
+			if len(fails) < 8 {
+				fails = append(fails, name+": the root box is not a block")
+			}
+		}
+	}
+	for _, collapse := range []string{"", "border-collapse:collapse;"} {
+		for _, dx := range displays {
+			for _, dy := range displays {
+				for _, dz := range displays {
+					st := func(d string) string { return fmt.Sprintf(` style="%sdisplay:%s"`, collapse, d) }
+					name := fmt.Sprintf("%s%s/%s/%s", collapse, dx, dy, dz)
+					build("chain "+name, fmt.Sprintf("<x-a%s><x-b%s><x-c%s>t</x-c></x-b></x-a>", st(dx), st(dy), st(dz)))
+					build("fork "+name, fmt.Sprintf("<x-a%s><x-b%s></x-b>u<x-c%s>t</x-c></x-a>", st(dx), st(dy), st(dz)))
+				}
+			}
+		}
+	}
+	for _, ca := range []string{"", "counter-reset: c 1;", "counter-set: c 5;", "counter-increment: c;"} {
+		for _, cb := range []string{"", "counter-reset: c 1;", "counter-set: c 5;", "counter-increment: c;"} {
+			for _, cc := range []string{"", "counter-reset: c 1;", "counter-set: c 5;", "counter-increment: c;"} {
+				build("counters "+ca+cb+cc, fmt.Sprintf(`<div style="%s"><p style="%s">a</p></div><p style="%s">b</p>`, ca, cb, cc))
+			}
+		}
+	}
+	return n, fails
+}
+
+//@ bounded vBuildSmallTrees BuildFormattingStructure on every document of three elements (chain and fork) over 15 display values, with separated and collapsed borders (13 500 documents), and 64 counter-property combinations: no panic, the root is a block
+//@   props C01
